@@ -170,9 +170,8 @@ def run_unit(unit, rec):
         reg = streams.registry()
         L = fam.L[t] - lite
         last = None
-        for level, s in fam.states(t, first):
-            if level > L:
-                break
+        for level, s, unique in fam.states(t, first, L):
+            rec.mark("states", s, unique)
             for pre, suf in fam.wraps:
                 data = pre + s + suf
                 w = {"engine": "stream-ladder", "family": name, "data": data, "ks": list(b["stream_ks"])}
